@@ -4,6 +4,8 @@ from core import Case, q, qs, qpts, fr, show_list, show_pts, show_pts2
 import gen as G
 
 PID = 'C13'
+FLOAT_KINDS = {'sweepc', 'sweeps', 'transpose', 'consurf-u', 'consurf-v', 'convol-u', 'convol-v', 'convol-w'}      # float-mode companion (core.float_companion)
+FLOAT_TOL = 1e-9
 STATS = G.STATS
 PARTIAL = [
     "boundary sections of a sweep / of extract_* are proved at the level of nets, degrees and knot vectors "
